@@ -12,6 +12,21 @@ def ident(x=None):
     return x
 def first(*a):
     return a[0]
+def in_thread(f):
+    """runs f in a worker thread started (and joined) inside the evaluation"""
+    import threading
+    out = []
+    def run():
+        try:
+            out.append(("ok", f()))
+        except BaseException as e:
+            out.append(("exc", e))
+    t = threading.Thread(target=run)
+    t.start()
+    t.join()
+    if out[0][0] == "exc":
+        raise out[0][1]
+    return out[0][1]
 class Thing(object):
     """an object of a type dds does not track"""
     def __str__(self):
